@@ -11,7 +11,8 @@
     that covers every host and binding. *)
 From PM Require Import Model.Prelude Model.Domain Model.CTree Model.CTreeChar Model.DomPGKeys
   Model.DomString Model.DomMatrix Spec.TreeSem
-  Proofs.TreeProofs Proofs.TreeDomains Proofs.PowersetProofs Proofs.PGTreeProofs.
+  Proofs.TreeProofs Proofs.TreeDomains Proofs.PowersetProofs Proofs.PGTreeProofs
+  Model.Constraint Model.DomPG Proofs.RunSound Proofs.TreeRootExclusive.
 
 (** helper constructors *)
 Theorem c10_with_children :
@@ -113,6 +114,44 @@ Theorem c10_sorted_head_is_minimal :
       sort_with_indices cmp l = (c0, i0) :: rest -> nth_error l i = Some c -> cmp c0 c <> Gt.
 Proof. exact @sort_head_minimal. Qed.
 
+(** The deterministic reading.  A tree that sets make_det allows the builder to
+    take only the first satisfied transition of the state it is inserted at; that
+    loses nothing when no two children of the root hold together.  Generic part:
+    the children of the root of [with_transitive_mutex] carry pairwise different
+    constraints, each the first one or mutex with it.  Port graphs (smallest
+    constraint IsConnected or HasNodeWeight): no host and no binding that is
+    injective on their arguments satisfies two of them — a port carries at most
+    one link.  (For a smallest constraint IsNotEqual the root's children are not
+    exclusive; there the first satisfied child's subtree repeats the others,
+    which is decided by the oracle on concrete hosts only.) *)
+Theorem c10_transitive_mutex_root :
+  forall (C : Type) (ceqb : C -> C -> bool) (items : list (C * nat)) is_mutex T first fi rest,
+    items = (first, fi) :: rest -> with_transitive_mutex ceqb items is_mutex = Ok T ->
+    ct_make_det T = true /\
+    exists root, nth_error (ct_nodes T) 0 = Some root
+      /\ (forall c k, In (c, k) (tn_children root) -> In c (map fst items) /\ (c = first \/ is_mutex first c = true))
+      /\ (forall l1 c1 k1 l2 c2 k2 l3, tn_children root = l1 ++ (c1, k1) :: l2 ++ (c2, k2) :: l3 -> ceqb c1 c2 = false).
+Proof. exact @transitive_mutex_root. Qed.
+
+Theorem c10_pg_tree_root_exclusive :
+  forall cs fuel T first fi rest,
+    sort_with_indices pgc_cmp cs = (first, fi) :: rest -> is_ne first = false ->
+    pg_tree fuel cs = Ok T ->
+    (forall c, In c cs -> length (cargs c) = pg_arity (cpred c)) ->
+    ct_make_det T = true /\
+    exists root, nth_error (ct_nodes T) 0 = Some root /\
+      forall l1 c1 k1 l2 c2 k2 l3, tn_children root = l1 ++ (c1, k1) :: l2 ++ (c2, k2) :: l3 ->
+        forall h m, inj_on m (cargs c1 ++ cargs c2) -> holds pg_dom h c1 m -> holds pg_dom h c2 m -> False.
+Proof. exact pg_tree_root_exclusive. Qed.
+
+(** Non-vacuity of the above: two links leaving the same port *)
+Example c10_example_exclusive :
+  let r := PathRoot 0 in let x := AlongPath 0 (POut 0) 1 in let y := AlongPath 0 (PIn 0) 1 in
+  let cs := [{| cpred := IsConnected (POut 0) (PIn 0); cargs := [r; x] |};
+             {| cpred := IsConnected (POut 0) (PIn 1); cargs := [r; y] |}] in
+  exists T root, pg_tree 100 cs = Ok T /\ nth_error (ct_nodes T) 0 = Some root /\ length (tn_children root) = 2.
+Proof. eexists. eexists. split; [vm_compute; reflexivity|split; reflexivity]. Qed.
+
 (** Non-vacuity: the family NE(k; a, b), NE(k; b, c) *)
 Example c10_example :
   let k := AlongPath 0 (POut 0) 1 in
@@ -130,3 +169,5 @@ Print Assumptions c10_string_tree.
 Print Assumptions c10_matrix_tree.
 Print Assumptions c10_pg_tree.
 Print Assumptions c10_sorted_head_is_minimal.
+Print Assumptions c10_transitive_mutex_root.
+Print Assumptions c10_pg_tree_root_exclusive.
